@@ -33,7 +33,7 @@ type Case struct {
 }
 
 func treeOpts(t *rapid.T, thorough bool) gen.Opts {
-	o := gen.Opts{MinTips: 4, MaxTips: 12, BigTips: 40, Rooted: -1, MaxDeg: 6, Lens: gen.AnyPresence, LenVals: gen.AnyValue}
+	o := gen.Opts{MinTips: 3, MaxTips: 12, BigTips: 40, Rooted: -1, MaxDeg: 6, Lens: gen.AnyPresence, LenVals: gen.AnyValue}
 	if thorough {
 		o.BigTips = 300
 	}
@@ -538,6 +538,9 @@ func TestC06Cli(t *testing.T) {
 		Rule: "the same trees and removal sets through `gotree prune`: tips as arguments, -f tip file (one name per line, comma-separated on one line, one long line in which a drawn name straddles byte 4096 / 8192 / 65536, or one line of exactly 4096 / 8192 / 65536 bytes without end of line), -c compared tree (tips absent from it are removed), --random k --seed s (the number of tips removed / kept and the induced subtree on whatever remains), each with and without -r, the input stream on stdin, in a file, in a gzip file or as a Nexus document (--format nexus, the compared tree too); half of the inputs are streams of 2-3 trees with different tip sets, each of which must be pruned on its own; every printed tree is compared with the induced subtree of the reference model; non-trivial = >= 1 tip removed and >= 1 multifurcation or rooted tree",
 		Gen: func(t *rapid.T, thorough bool) CliCase {
 			c := CliCase{Case: genCase(t, false), Mode: rapid.SampledFrom([]string{"args", "file", "comp", "random"}).Draw(t, "mode")}
+			if c.Mode == "random" && len(c.Tree.Tips()) < 4 {
+				c.Mode = "args" // nothing can be drawn from three tips if three must remain
+			}
 			if c.Mode == "args" && len(c.Names) == 0 {
 				c.Mode = "file"
 			}
